@@ -1025,6 +1025,37 @@ func (c *Ctx) loopVisitedGuard(g *ssa.Function) bool {
 		if !ok {
 			continue
 		}
+		// the same scan written with the standard helper: `if slices.Contains(S, X) { return true }` with S loop-carried
+		// and extended by X somewhere in g
+		if cc, isCall := ifi.Cond.(*ssa.Call); isCall && strings.HasPrefix(core.StaticCalleeName(&cc.Call), "slices.Contains") && len(cc.Call.Args) == 2 && c.isSDKValue(cc.Call.Args[1]) {
+			returnsTrue := false
+			for _, in := range b.Succs[0].Instrs {
+				if r, ok := in.(*ssa.Return); ok && len(r.Results) == 1 {
+					if cst, ok := r.Results[0].(*ssa.Const); ok && cst.Value != nil && cst.Value.String() == "true" {
+						returnsTrue = true
+					}
+				}
+			}
+			if _, isPhi := cc.Call.Args[0].(*ssa.Phi); isPhi && returnsTrue {
+				for _, ob := range g.Blocks {
+					for _, oin := range ob.Instrs {
+						app, ok := oin.(*ssa.Call)
+						if !ok {
+							continue
+						}
+						bi, ok := app.Call.Value.(*ssa.Builtin)
+						if !ok || bi.Name() != "append" || len(app.Call.Args) != 2 || app.Call.Args[0] != cc.Call.Args[0] {
+							continue
+						}
+						for _, el := range variadicElems(app.Call.Args[1]) {
+							if el == cc.Call.Args[1] {
+								return true
+							}
+						}
+					}
+				}
+			}
+		}
 		bin, ok := ifi.Cond.(*ssa.BinOp)
 		if !ok || bin.Op != token.EQL {
 			continue
@@ -1149,6 +1180,16 @@ func (c *Ctx) visitedPathGuard(e termEdge) string {
 		}
 		if !fromParam {
 			continue
+		}
+		// the scan written with the standard helper: the call is reached only on the negative outcome of
+		// slices.Contains(base, target)
+		notThere := func(cond core.Cond) bool {
+			cc, ok := cond.V.(*ssa.Call)
+			return ok && !cond.True && len(cc.Call.Args) == 2 && strings.HasPrefix(core.StaticCalleeName(&cc.Call), "slices.Contains") &&
+				cc.Call.Args[0] == base && sameValue(cc.Call.Args[1], target)
+		}
+		if core.MustHold(fn, notThere)[e.site.Block()] {
+			return "the recursive call extends its " + fn.Params[ai].Name() + " parameter by the object it descends into, and is reached only where slices.Contains of that list and the object was false: the depth is bounded by the number of objects of the schema, and no other call leads back into the function"
 		}
 		// the scan: a block comparing an element of base with the target, returning on equality and otherwise going back
 		// to a loop header whose exit dominates the call
